@@ -106,6 +106,8 @@ def check_structure(ctx, cfg, t, label):
     if surv:
         need += ["init_lat", "init_lon", "log_e_nu", "tauBeta", "tauLorentz", "tauEnergy", "showerEnergy", "tauExitProb", "altDec", "lenDec"]
         need += (["numPEs", "costhetaChEff"] if opt else []) + (["EFields"] if rad else [])
+        if target:   # target mode stores the per-instant contributions of each enabled channel
+            need += (["tmcintopt"] if opt else []) + (["tmcintrad"] if rad else [])
     miss = [c for c in need if c not in t.colnames]
     if miss:
         ctx.violation("compute", "missing-columns", f"stage columns missing: {miss}", case)
@@ -304,6 +306,33 @@ def run(ctx: Ctx):
             if per.get("eas", 0) or per.get("mc", 0):
                 ctx.violation("compute", "signal-stage-draws", "the shower or integral stage draws from the global generator (channel isolation relies on it not doing so)",
                               {"run": label, "draws": per})
+    # (g) a run with more than 1000 showers (more than ten 100-event partitions): the optical columns of sampled rows must be
+    # what the optical stage gives for THAT row's own columns (row alignment of the gathered batch at large sizes)
+    from nuspacesim.simulation.eas_optical.eas import EAS
+    from nuspacesim.simulation.atmosphere.clouds import CloudTopHeight
+    nbig = 1250 if not ctx.thorough else 2300
+    cfgb = make_cfg("Diffuse", "mono", "none", True, False, 525.0, nbig)
+    seedb = int(rng.integers(1, 2 ** 31))
+    tb = run_compute(cfgb, seedb, "threads", num_workers=8)
+    ctx.case(("big-run", nbig, seedb), {"run": f"Diffuse/mono/none/525km/optical-only/{nbig} thrown", "survivors": len(tb)})
+    check_structure(ctx, cfgb, tb, f"big-run-{nbig}")
+    rows = np.unique(np.concatenate([[0, 1, 99, 100, 101, 199, 200, 201, len(tb) - 1], rng.integers(0, len(tb), 40),
+                                     rng.integers(min(1000, len(tb) - 1), len(tb), 20)]))
+    rows = rows[(rows >= 0) & (rows < len(tb))]
+    eas = EAS(cfgb)
+    import dask
+    with dask.config.set(scheduler="synchronous"):
+        pe, ct = eas(np.asarray(tb["beta_rad"])[rows], np.asarray(tb["altDec"])[rows], np.asarray(tb["showerEnergy"])[rows],
+                     np.asarray(tb["init_lat"])[rows], np.asarray(tb["init_lon"])[rows], cloudf=CloudTopHeight(cfgb))
+    badr = [int(r) for r, a, b, c, d in zip(rows, pe, np.asarray(tb["numPEs"])[rows], ct, np.asarray(tb["costhetaChEff"])[rows])
+            if not (close(a, b, 1e-6, 1e-12) and close(c, d, 1e-9))]
+    ctx.count("big-run-rows-rechecked", len(rows))
+    if badr:
+        r0 = badr[0]
+        ctx.violation("compute", "optical-columns-not-of-their-row", f"numPEs/costhetaChEff of {len(badr)} of {len(rows)} sampled rows are not what the optical stage gives for that row's own columns (first: row {r0})",
+                      {"thrown": nbig, "seed": seedb, "survivors": len(tb), "row": r0, "stored_numPEs": float(tb["numPEs"][r0]),
+                       "recomputed_numPEs": float(pe[list(rows).index(r0)]), "beta_rad": float(tb["beta_rad"][r0]), "altDec": float(tb["altDec"][r0]),
+                       "showerEnergy": float(tb["showerEnergy"][r0])})
     # (e) zero survivors
     for mode in ("Diffuse", "Target"):
         cfg0 = make_cfg(mode, "mono", "none", True, True, 525.0, 0)
